@@ -1146,6 +1146,13 @@ pub fn run_c10(ec: &EncCase) -> RunReport {
             }
         }
     };
+    // one case in eight: the same file through the single-threaded converter (bigwigtobedgraph / bigbedtobed)
+    let verdict = if verdict == Verdict::Pass && crate::rng::hash_bytes(&image) % 8 == 0 {
+        *st.counters.entry("files_through_converter".into()).or_insert(0) += 1;
+        converter_check(sp, &pf, &image)
+    } else {
+        verdict
+    };
     st.steps = ec.ops.len() as u64;
     st.trace_hash = crate::rng::hash_bytes(&serde_json::to_vec(&ec.ops).unwrap());
     RunReport {
@@ -1153,6 +1160,74 @@ pub fn run_c10(ec: &EncCase) -> RunReport {
         nontrivial: sp.chroms.iter().map(|c| c.blocks.len()).sum::<usize>() >= 2,
         stats: st,
     }
+}
+
+fn converter_check(sp: &EncSpec, pf: &PipeCase, image: &[u8]) -> Verdict {
+    let dir = match tempfile::tempdir() {
+        Ok(d) => d,
+        Err(e) => return Verdict::Skip(format!("HARNESS: tempdir: {}", e)),
+    };
+    let big = dir.path().join("enc.big");
+    let outp = dir.path().join("out.txt");
+    if std::fs::write(&big, image).is_err() {
+        return Verdict::Skip("HARNESS: scratch write".into());
+    }
+    let res = std::panic::catch_unwind(std::panic::AssertUnwindSafe(|| -> Result<(), String> {
+        let f = std::fs::File::create(&outp).map_err(|e| e.to_string())?;
+        match sp.kind {
+            Kind::Wig => {
+                let r = BigWigRead::open_file(&big).map_err(|e| e.to_string())?;
+                bigtools::utils::cli::bigwigtobedgraph::write_bg_singlethreaded(r, f, None, None, None).map_err(|e| e.to_string())
+            }
+            Kind::Bed => {
+                let r = BigBedRead::open_file(&big).map_err(|e| e.to_string())?;
+                bigtools::utils::cli::bigbedtobed::write_bed_singlethreaded(r, f, None, None, None, None).map_err(|e| e.to_string())
+            }
+        }
+    }));
+    match res {
+        Err(p) => return viol("reader-panic", format!("converter: {}", panic_message(p))),
+        Ok(Err(e)) => return viol("read-error", format!("converter: {}", e)),
+        Ok(Ok(())) => {}
+    }
+    let text = std::fs::read_to_string(&outp).unwrap_or_default();
+    // expected: chromosomes in the order of the chromosome tree (sorted by name), records in stored order
+    let mut chroms: Vec<&Chrom> = pf.chroms.iter().collect();
+    chroms.sort_by(|a, b| a.name.as_bytes().cmp(b.name.as_bytes()));
+    let mut want: Vec<(String, u32, u32, String)> = vec![];
+    for c in chroms {
+        for it in &c.items {
+            want.push((c.name.clone(), it.s, it.e, if sp.kind == Kind::Wig { String::new() } else { it.rest.clone() }));
+        }
+    }
+    let mut got: Vec<(String, u32, u32, String, f32)> = vec![];
+    for line in text.lines() {
+        let mut f = line.splitn(4, '\t');
+        let c = f.next().unwrap_or("").to_string();
+        let s: u32 = f.next().and_then(|x| x.parse().ok()).unwrap_or(u32::MAX);
+        let e: u32 = f.next().and_then(|x| x.parse().ok()).unwrap_or(u32::MAX);
+        let rest = f.next().unwrap_or("").to_string();
+        if sp.kind == Kind::Wig {
+            got.push((c, s, e, String::new(), rest.parse::<f32>().unwrap_or(f32::NAN)));
+        } else {
+            got.push((c, s, e, rest, 0.0));
+        }
+    }
+    if got.len() != want.len() {
+        return viol("wrong-answer", format!("converter wrote {} records, the file encodes {}", got.len(), want.len()));
+    }
+    let vals: Vec<f32> = {
+        let mut chroms: Vec<&Chrom> = pf.chroms.iter().collect();
+        chroms.sort_by(|a, b| a.name.as_bytes().cmp(b.name.as_bytes()));
+        chroms.iter().flat_map(|c| c.items.iter().map(|i| i.v())).collect()
+    };
+    for (k, (g, w)) in got.iter().zip(&want).enumerate() {
+        let same = g.0 == w.0 && g.1 == w.1 && g.2 == w.2 && g.3 == w.3 && (sp.kind == Kind::Bed || g.4 == vals[k] || g.4.to_bits() == vals[k].to_bits());
+        if !same {
+            return viol("wrong-answer", format!("converter record {}: got {:?}, encoded {:?}", k, g, w));
+        }
+    }
+    Verdict::Pass
 }
 
 pub fn shrink_c10(ec: &EncCase) -> Vec<EncCase> {
